@@ -91,6 +91,45 @@ def runtime_part(ctx):
 SINGLE = '\n#ifdef AUV_SINGLE_TU\n#include "auv_main.cc"\nnamespace auv { int rc_run(const char *, size_t, PropFn, void *, uint64_t *) { return 2; } }\n#endif\n'
 
 
+def unsigned_wrap_build(ctx):
+    """second build (clang++): unsigned-integer-overflow instrumentation restricted to au/utility/mod.hh; modular + adversarial parts only"""
+    src = os.path.join(core.HARNESS, "c12_main.cc")
+    exe = ctx.path("uio/c12_uio.exe")
+    flags = ["-O1", "-fsanitize=unsigned-integer-overflow", "-fno-sanitize-recover=all", "-fsanitize-ignorelist=" + os.path.join(core.HARNESS, "c12_uio_ignorelist.txt"), "-DAUV_SINGLE_TU"]
+    text = open(src).read() + SINGLE.replace("return 2; }", "(void)0; return 2; }")
+    p = ctx.write("uio/c12_uio.cc", text)
+    cr = core.compile_one(("clang++", "c++17"), p, exe, flags=flags, timeout=900)
+    if not cr.ok:
+        if cr.harness_bug:
+            raise RuntimeError("c12 unsigned-wrap build: " + cr.first_error())
+        ctx.bump("unsigned_wrap_build_failed")
+        return
+    env = dict(os.environ); env["UBSAN_OPTIONS"] = "halt_on_error=1:abort_on_error=1:print_stacktrace=0"
+
+    def one(k):
+        return core.run_cmd(["timeout", "-s", "ABRT", "600", exe, "--shard", str(k), str(core.NCPU), "--only", "adversarial"] + ([] if ctx.quick() else ["--thorough"]), timeout=800, env=env)
+    res = core.pmap(one, range(core.NCPU)) + [core.run_cmd(["timeout", "-s", "ABRT", "600", exe, "--only", "modular"], timeout=800, env=env)]
+    n = 0
+    for rc, out, err, secs, to in res:
+        stats, fails, deaths, other = parse_output(out)
+        n += sum(s_["evals"] for s_ in stats)
+        if rc != 0 and "unsigned integer overflow" in err and "mod.hh" in err:
+            d = deaths[-1] if deaths else {"what": ""}
+            w = d.get("what", "")
+            if w.startswith("a="):
+                parts = dict(x.split("=") for x in w.split())
+                args = ["--one", "mod", parts["a"], parts["b"], parts["n"], parts["e"]]
+            elif w.startswith("n="):
+                args = ["--one", "n", w[2:]]
+            else:
+                args = ["--one", "n", "97"]
+            line = [l for l in err.splitlines() if "runtime error" in l][:1]
+            ctx.fail("C12: intermediate unsigned wrap-around inside a modular helper (%s) at %s" % (line[0][-160:] if line else "", w),
+                     {"mode": "run", "src": text, "cfg": ["clang++", "c++17"], "flags": flags, "args": args, "stdout": "AUVONE ok\n", "env": {"UBSAN_OPTIONS": env["UBSAN_OPTIONS"]}})
+    ctx.count(n)
+    ctx.hist["unsigned_wrap_build"] = {"evaluations": n, "instrumented": "au/utility/mod.hh only (clang -fsanitize=unsigned-integer-overflow with an ignore list)"}
+
+
 def replay_for(args):
     src = open(os.path.join(core.HARNESS, "c12_main.cc")).read() + SINGLE
     return {"mode": "run", "src": src, "cfg": list(CFG), "flags": ["-O1", "-DAUV_SINGLE_TU", "-fsanitize=undefined", "-fno-sanitize-recover=all"],
@@ -189,6 +228,7 @@ def run(ctx):
     ctx.assumptions += ["7-base Miller-Rabin {2,325,9375,28178,450775,9780504,1795265022} is deterministic below 2^64",
                         "compile-time cases that stop on a constexpr resource limit are inconclusive"]
     runtime_part(ctx)
+    unsigned_wrap_build(ctx)
     compile_time_part(ctx)
     # coverage-guided campaign (structure-aware decode, oracle inside the target); short in quick, long in thorough
     from .. import fuzzrun
